@@ -152,6 +152,26 @@ def run(chk: Check) -> None:
             check_line(STAMP, True, f"{rssi} {fr} < parser hint", "annotated")
         elif k < 0.75:
             check_line(rnd.choice(("", "garbage", "2024-13-01T00:00:00.000000", "2024-01-01 12:00", STAMP[:-1] + "x")), False, f"{rssi} {fr}", "badstamp")
+    # whole-address edits: every field replaced by the null / broadcast / gateway address, a copy of another field or a
+    # fresh id (all 27 null/other patterns occur, the all-null set among them)
+    SPECIAL = ("--:------", "--:------", "63:262142", "18:000730")
+    for fr in base[:: 7 if not thorough else 2]:
+        if len(fr) < 41 or fr[16] != " " or fr[26] != " ":
+            continue
+        a = [fr[7:16], fr[17:26], fr[27:36]]
+        for _ in range(2):
+            b = list(a)
+            for i in range(3):
+                k = rnd.random()
+                if k < 0.45:
+                    b[i] = rnd.choice(SPECIAL)
+                elif k < 0.6:
+                    b[i] = rnd.choice(a)
+                elif k < 0.7:
+                    b[i] = rt.gen_id(rnd)
+            check_line(STAMP, True, f"045 {fr[:7]}{b[0]} {b[1]} {b[2]}{fr[36:]}", "addrmut")
+    for v in (" I", "RQ", "RP", " W"):
+        check_line(STAMP, True, f"045 {v} --- --:------ --:------ --:------ 0001 005 00FFFF02FF", "addrmut")
     junk = ["", " ", "#", "# evofw3 0.7.1", "!V", "!C", "* Checksum error", "045", "045 ", "045  I", "\x00\x01", "٣٣٣  I --- 01:145038 --:------ 01:145038 1F09 003 FF073F",
             "045  I --- ٠١:145038 --:------ 01:145038 1F09 003 FF073F", "045  I --- 01:145038 --:------ 01:145038 1F09 ٠٠٣ FF073F", "< # *", "045 RQ --- 18:000730 01:145038 --:------ 0418 003 00003F *"]
     for j in junk:
